@@ -3,7 +3,7 @@
    point; labels are scheduler choices, so "for all label sequences" is "for all interleavings". *)
 From Coq Require Import List Arith Bool Lia.
 Import ListNotations.
-From V Require Import Model.ConcExec Proofs.ConcExecProofs.
+From V Require Import Model.ConcExec Proofs.ConcExecProofs Proofs.ConcTermination.
 
 (* released: for EVERY plan, oracle of downstream outcomes, limit and schedule, a state in which nothing can move any
    more has main returned, no step goroutine alive and the collector exited (code as it is after fix d3a4cc6) *)
@@ -23,6 +23,17 @@ Theorem C13_limit : forall fixed max o roots ls st,
   run fixed max o ls (init roots) = Some st -> sent st <= max.
 Proof. exact sent_within_limit. Qed.
 Print Assumptions C13_limit.
+
+(* "A client request always terminates": every schedule from the start is at most mu(init) steps long (mu: an explicit
+   measure, linear in the size of the plan, that every step strictly decreases), and in every reachable state in which main
+   has not returned some step is enabled.  So every maximal schedule is finite and ends with main returned - for every plan,
+   every oracle of downstream outcomes, every limit. *)
+Theorem C13_terminates : forall max o roots ls st,
+  run true max o ls (init roots) = Some st ->
+  List.length ls <= mu (init roots) /\
+  ((forall b, main st <> MReturned b) -> exists l st', fire true max o st l = Some st').
+Proof. exact execute_terminates. Qed.
+Print Assumptions C13_terminates.
 
 (* non-vacuity: a complete successful run of a two-level plan under limit 5 ends released with one lookup round sent *)
 Example C13_example :
